@@ -14,12 +14,15 @@ under any that does not:
  (G) add_forbidden_view / add_notfound_view / add_exception_view / add_static_view under a policy + default permission:
      derived callable unguarded?, exception_only?, `permission=` rejected?
  (H) the default of every `secure` parameter (inspect.signature)
+ (J) which handle (the view itself / `__call_permissive__`) render_view_to_response (secure default/True/False) and
+     owrapped_view's wrapper lookup call
  (I) the `viewdefaults` merge of a class's (inherited) `__view_defaults__` with the explicit arguments, observed
      through add_view on a base/own/explicit/default-permission cube (96 runs)
 STRUCTURAL facts — python `ast` (cannot be observed by running: they are about every place in the tree):
  (S) every call of _call_view / render_view_to_response / render_view_to_iterable / render_view / invoke_exception_view,
      every occurrence of `__call_permissive__`, every `secure=False` keyword, with file, enclosing function, the value
-     given for `secure`, and (inside `_call_view`) the enclosing tests normalised to `X=true/false`; sorted.
+     given for `secure`, and (inside `_call_view`) the enclosing tests normalised to `X=true/false`; sorted.  A site
+     inside a module-level helper is attributed to the same-module functions that call the helper (two levels).
 
 Every probe fails closed: an exception, a foreign `pyramid` on the path, or an unexpected value yields an empty /
 "unknown" table and the `decide`d obligations in Props/C05.lean fail.
@@ -36,8 +39,10 @@ SECURE_POS = {'_call_view': 7, 'render_view_to_response': 3, 'render_view_to_ite
 
 
 class _Sites(ast.NodeVisitor):
-    def __init__(self, rel):
+    def __init__(self, rel, toplevel=()):
         self.rel, self.stack, self.ifs, self.out = rel, [], [], []
+        self.toplevel = set(toplevel)      # names of the module-level functions of this file
+        self.helper_calls = []             # (helper name, calling function, guard at the call)
 
     def qual(self):
         return '.'.join(self.stack) or '<module>'
@@ -98,6 +103,8 @@ class _Sites(ast.NodeVisitor):
             self.out.append((self.rel, self.qual(), 'str:__call_permissive__', '', self.guard()))
 
     def visit_Call(self, n):
+        if isinstance(n.func, ast.Name) and n.func.id in self.toplevel and n.func.id not in VIEW_CALLERS and self.stack:
+            self.helper_calls.append((n.func.id, self.qual(), self.guard()))
         callee = None
         if isinstance(n.func, ast.Name):
             callee = n.func.id
@@ -126,6 +133,10 @@ class _Sites(ast.NodeVisitor):
 
 
 def call_sites(root):
+    """the sites of the whole tree.  A site found inside a module-level helper (not itself a view-lookup entry point)
+    that is called from other functions of the same module is attributed to those callers, with the guard standing at
+    the call (two levels): extracting `getattr(v, '__call_permissive__', v)` into `_permissive(v)` leaves the table as
+    it was."""
     out = []
     base = os.path.join(root, 'pyramid')
     for dirpath, dirs, files in os.walk(base):
@@ -142,11 +153,26 @@ def call_sites(root):
             except SyntaxError:
                 out.append((rel, '<module>', 'unknown', 'unparsable', ''))
                 continue
-            v = _Sites(rel)
+            top = [n.name for n in tree.body if isinstance(n, ast.FunctionDef)]
+            v = _Sites(rel, top)
             v.visit(tree)
-            out += v.out
+            sites = list(v.out)
+            for _ in range(2):
+                nxt, changed = [], False
+                for site in sites:
+                    helper = site[1]
+                    callers = [(g, guard) for h, g, guard in v.helper_calls if h == helper and g != helper]
+                    if helper in top and helper not in VIEW_CALLERS and callers:
+                        changed = True
+                        for g, guard in callers:
+                            nxt.append((site[0], g, site[2], site[3], ' & '.join(x for x in (guard, site[4]) if x)))
+                    else:
+                        nxt.append(site)
+                sites = nxt
+                if not changed:
+                    break
+            out += sites
     return sorted(set(out))
-
 
 
 def run_probes(root):
@@ -297,6 +323,11 @@ def generate(root):
           '/-- a class-level `permission` makes these directives refuse the class -/',
           'def classPermissionRejected : List (String × Bool) := [' +
           ', '.join('(%s, %s)' % (_lstr(a), _lbool(b)) for a, b in (vd.get('rejected') or [])) + ']', '']
+    # (J) entry points
+    L += ['/-- which handle of a found view each lookup entry point calls (1 the view itself, 101 its permissive handle, 50 the',
+          'wrapped inner view) -/',
+          'def entryProbe : List (String × List Nat) := [' +
+          ', '.join('(%s, %s)' % (_lstr(a), _lnats(b)) for a, b in (pr.get('entrypoints') or [])) + ']', '']
     # (H)
     L += ['def secureDefaults : List (String × String) := [' + ', '.join('(%s, %s)' % (_lstr(a), _lstr(b)) for a, b in (pr.get('secure_defaults') or [])) + ']', '']
     # (S)
